@@ -74,6 +74,9 @@ class Mismatch:
         name = self.op.name
         if self.direction.startswith('userdata-events'):
             return '%s:%s:%s' % (pid, self.direction, name)
+        if name in ('it', 'tw', 'list', 'map', 'rg', 'getById') and self.direction == 'result' and getattr(self, 'after', None):
+            # answers of a live view: name the last tree mutation that preceded the wrong answer (narrow key)
+            return '%s:%s:%s%s:after-%s' % (pid, self.direction, name, (':' + cls) if cls else '', self.after)
         if cls in SELF_DESCRIBING:
             return '%s:%s:%s' % (pid, self.direction, cls)
         return '%s:%s:%s%s' % (pid, self.direction, name, (':' + cls) if cls else '')
@@ -116,11 +119,13 @@ class Run:
 
 
 def lockstep(ops, obs, forced, upto=None, pid=PID, collect=None, base=frozenset()):
+    ignore_ud = pid != PID      # user data handler calls belong to C13
     """Run the model along the observation.  forced: {op index: quirk name}.  Returns a Run."""
     m = Model()
     run = Run()
     i = -1
     mutated = False
+    last_mut = None
     for op in ops:
         if op.name == 'kill':
             continue
@@ -173,6 +178,7 @@ def lockstep(ops, obs, forced, upto=None, pid=PID, collect=None, base=frozenset(
         run.kinds.add(op.name)
         if op.name in domref.MUTATING or (op.name == 'rg' and len(op.args) > 1 and op.args[1] in ('delete', 'extract', 'insertNode', 'surround')):
             mutated = True
+            last_mut = op.name if op.name != 'rg' else 'rg-' + op.args[1]
         elif mutated and op.name in ('it', 'tw', 'list', 'map', 'rg', 'getById') and m.views:
             run.view_queries_after_mutation += 1
         run.seq.append((op.name, o.outcome))
@@ -198,6 +204,7 @@ def lockstep(ops, obs, forced, upto=None, pid=PID, collect=None, base=frozenset(
             okres = (o.res in exp.res) if isinstance(exp.res, (set, frozenset)) else (o.res == exp.res)
             if not okres:
                 run.mismatch = Mismatch(i, op, exp, 'result', {'expected': sorted(exp.res) if isinstance(exp.res, (set, frozenset)) else exp.res, 'observed': o.res})
+                run.mismatch.after = last_mut
                 return run
         if o.crc != '-':
             crc, nl, lines = m.dump_hash()
@@ -207,7 +214,7 @@ def lockstep(ops, obs, forced, upto=None, pid=PID, collect=None, base=frozenset(
                 direction = 'exception-but-changed' if o.outcome != 'ok' else 'tree-differs'
                 run.mismatch = Mismatch(i, op, exp, direction, {'expected_dump': lines, 'observed_dump': o.dump, 'expected_hash': [crc, nl], 'observed_hash': [o.crc, o.nl]})
                 return run
-        if not exp.ud_dontcare:
+        if not exp.ud_dontcare and not ignore_ud:
             eu = sorted((a, b, c, d_) for (a, b, c, d_) in exp.ud)
             ou = sorted(o.ud)
             if exp.ud_optional:
@@ -509,9 +516,9 @@ def run_shard(args):
     tgen = time.time() - t0
     # a hang costs one batch time-out: keep batches small enough for that to stay around a minute
     recs = {}
-    CH = 600 if kind != 'special' else 4      # special cases in small batches (some of them used to crash or loop)
+    CH = 300 if kind != 'special' else 4      # special cases in small batches (some of them used to crash or loop)
     for b in range(0, len(cases), CH):
-        recs.update(core.run_shard(binary, cases[b:b + CH], tag='c13%s%d' % (kind[0], shard), per_case_timeout=4.0, min_batch_timeout=45.0, env=_env_for(binary)))
+        recs.update(core.run_shard(binary, cases[b:b + CH], tag='c13%s%d' % (kind[0], shard), per_case_timeout=10.0, min_batch_timeout=90.0, env=_env_for(binary)))
     trun = time.time() - t0 - tgen
     suspects = []
 
@@ -556,7 +563,7 @@ def run_shard(args):
     # authoritative verdict for every suspect: one more batch with invariants + dump hash after EVERY operation
     if suspects:
         need = [x for x in suspects if int(x[0].opt.get('chk', 1)) != 1]
-        recs2 = core.run_shard(binary, [_detailed(c) for c, _ in need], tag='c13v%d' % shard, per_case_timeout=4.0, min_batch_timeout=45.0, env=_env_for(binary)) if need else {}
+        recs2 = core.run_shard(binary, [_detailed(c) for c, _ in need], tag='c13v%d' % shard, per_case_timeout=10.0, min_batch_timeout=120.0, env=_env_for(binary)) if need else {}
         for c, viol in suspects:
             r2 = recs2.get(c.id + '_d')
             if r2 is not None and r2.complete and not r2.crash and not r2.hang:
@@ -648,6 +655,7 @@ def shrink(binary, case_json, key, max_rounds=14, pid=PID, base=frozenset()):
 # ---------------------------------------------------------------------------------------------------
 TIERS = {
     #            random scripts, ops each, exhaustive depth
+    'mini': dict(nrandom=320, nops=200, depth=0, chk=4),        # subset of quick (same shards, first 20 scripts each): sensitivity runs
     'quick': dict(nrandom=2000, nops=200, depth=2, chk=4),
     'thorough': dict(nrandom=8000, nops=1000, depth=3, chk=10),
 }
@@ -668,7 +676,8 @@ def _run(ck, cfg, tier, binary, opts=None):
     opts = opts or {}
     pid = ck.pid
     base = frozenset(opts.get('base', ()))
-    nsh = min(16, core.NCPU, int(os.environ.get('XV_JOBS', '16')))
+    nsh = 16                                   # logical shards: fixed, so that a seed always means the same scripts
+    workers = max(1, min(16, core.NCPU, int(os.environ.get('XV_JOBS', '16'))))
     jobs = [(binary, 'special', ck.seed, 0, 1, 0, 0, 0, 0, 1, opts)]
     per = (cfg['nrandom'] + nsh - 1) // nsh
     for s in range(nsh):
@@ -678,7 +687,7 @@ def _run(ck, cfg, tier, binary, opts=None):
         jobs.append((binary, 'exhaustive', ck.seed, s, xsh, 0, 0, 0, cfg['depth'], 1, opts))
     ck.note('running %d shards (%d random scripts x %d ops, exhaustive depth %d)' % (len(jobs), per * nsh, cfg['nops'], cfg['depth']))
     res = []
-    with ProcessPoolExecutor(nsh) as ex:
+    with ProcessPoolExecutor(workers) as ex:
         for r in ex.map(run_shard, jobs):
             res.append(r)
     classes, codes, stopped = {}, {}, {}
@@ -716,7 +725,12 @@ def _run(ck, cfg, tier, binary, opts=None):
             else:
                 # memory errors: the sanitizer's error kind depends on where the stray access lands; key on the function
                 parts = key.split(':')
-                if parts[0] in ('asan', 'signal') and len(parts) >= 3:
+                if parts[0] == 'ubsan' and len(parts) >= 3:
+                    import re as _re
+                    kind = _re.sub(r'address \S+', 'address', parts[1])
+                    kind = _re.sub(r'[^A-Za-z ]+', '', kind).strip().replace('  ', ' ')[:48].strip().replace(' ', '-')
+                    key = '%s:ubsan:%s:%s' % (pid, kind, ':'.join(parts[2:]))
+                elif parts[0] in ('asan', 'signal') and len(parts) >= 3:
                     key = '%s:memory-error:%s' % (pid, ':'.join(parts[2:]))
                 else:
                     key = '%s:%s' % (pid, key)
@@ -741,7 +755,7 @@ def _run(ck, cfg, tier, binary, opts=None):
                 return k, (None if is_special(k) else shrink(binary, first_witness[k], k, pid=pid, base=base))
             except Exception as e:          # shrinking is a convenience, never a verdict
                 return k, None
-        with ThreadPoolExecutor(min(nsh, len(keys))) as ex:
+        with ThreadPoolExecutor(min(workers, len(keys))) as ex:
             for k, mc in ex.map(sh, keys):
                 if mc is not None:
                     ck.violations[k]['witness']['minimal_case'] = mc.to_json()
